@@ -106,6 +106,32 @@ class RecObs(SequencerObserver):
         self.stream.append(("sleep", seconds))
 
 
+class NotesOnlyObs(SequencerObserver):
+    """An observer class that cares about notes only ..."""
+
+    def __init__(self):
+        self.stream = []
+
+    def play_int_note_event(self, int_note, channel, velocity):
+        self.stream.append(("on", int_note, channel, velocity))
+
+    def stop_int_note_event(self, int_note, channel):
+        self.stream.append(("off", int_note, channel))
+
+
+class DerivedObs(NotesOnlyObs):
+    """... and a class derived from it that adds the rest (an observer class two levels below SequencerObserver)."""
+
+    def cc_event(self, channel, control, value):
+        self.stream.append(("cc", channel, control, value))
+
+    def instr_event(self, channel, instr, bank):
+        self.stream.append(("instr", channel, instr, bank))
+
+    def sleep(self, seconds):
+        self.stream.append(("sleep", seconds))
+
+
 class RawListener(object):
     """Anything with notify(msg_type, params) may be attached."""
 
@@ -146,10 +172,15 @@ def new_sequencer(where):
 
 def rig():
     seq = new_sequencer("a playback case")
-    o1, o2 = RecObs(), RawListener()
+    o1, o2, o3 = RecObs(), RawListener(), DerivedObs()
+    # a do-nothing observer and one that listens to notes only come first (they are not judged): whichever class is
+    # notified first in a process, every observer gets its own events
+    seq.attach(SequencerObserver())
+    seq.attach(NotesOnlyObs())
     seq.attach(o1)
     seq.attach(o2)
-    return seq, [("SequencerObserver subclass", o1), ("notify object", o2)]
+    seq.attach(o3)
+    return seq, [("SequencerObserver subclass", o1), ("notify object", o2), ("subclass of an observer subclass", o3)]
 
 
 def _window(stream, i):
